@@ -267,5 +267,20 @@ def sub_programs(program):
         yield {k: v for k, v in program.items() if k != "render"}
     if program.get("mw"):
         yield {k: v for k, v in program.items() if k != "mw"}
+    if program.get("meta"):
+        yield {k: v for k, v in program.items() if k not in ("meta", "nointro")}
     for fs in drop_in(program["fields"]):
         yield dict(program, fields=fs)
+
+
+def add_meta(rng, prog, nointro=None):
+    """select meta fields at the root (`__typename`; `__schema` too for a query) at random positions
+    and draw the disable_introspection option. With the option on the executor leaves the meta
+    fields out of the response; the other fields keep their document order either way."""
+    n = len(prog["fields"])
+    meta = [[rng.randint(0, n), "__typename"]]
+    if prog["op"] == "query" and rng.random() < 0.6:
+        meta.append([rng.randint(0, n), "__schema"])
+    prog["meta"] = meta
+    prog["nointro"] = (rng.random() < 0.6) if nointro is None else nointro
+    return prog
